@@ -73,6 +73,7 @@ fn run_case<G: AffineRepr>(env: &Env<G>, c: &Case) -> CaseOut {
                     }
                 }
             }
+            (Err(e), false) if !matches!(e, R1CSError::InvalidGeneratorsLength) => o.count(&format!("note: prove at sufficient capacity failed with {} (see C01)", err_name(e)), 1),
             (other, below) => {
                 let got = match other {
                     Ok(_) => "Ok",
@@ -87,6 +88,12 @@ fn run_case<G: AffineRepr>(env: &Env<G>, c: &Case) -> CaseOut {
         None => return o,
     };
     let bad = Mirror::of(&proof).and_then(|m| apply(&m, &Mut::Scalar(1, 0), &env.pc.B)).and_then(|m| m.to_real());
+    // the verdict at the largest capacity is the reference for "does not depend on surplus capacity"
+    let top_cap = c.caps.iter().copied().max().unwrap_or(128).max(t);
+    let top_verdict = crate::interp::cur::verify_program::<G>(&prog, &vs, &proof, &env.pc, &env.bp_of(top_cap)).res;
+    if top_verdict.is_err() {
+        o.count("note: honest proof not accepted at the largest capacity (see C01)", 1);
+    }
     for &cap in &c.caps {
         let bp = env.bp_of(cap);
         o.evals += 1;
@@ -104,7 +111,8 @@ fn run_case<G: AffineRepr>(env: &Env<G>, c: &Case) -> CaseOut {
         o.sig(format!("{}|n1={}|n2={}|capV={}", env.curve, c.n1, c.n2, cap));
         match (&r, cap < t) {
             (Err(R1CSError::InvalidGeneratorsLength), true) => o.count("verify:cap<T->InvalidGeneratorsLength", 1),
-            (Ok(()), false) => o.count("verify:cap>=T->Ok", 1),
+            (Ok(()), false) if top_verdict.is_ok() => o.count("verify:cap>=T->Ok", 1),
+            (other, false) if !matches!(other, Err(R1CSError::InvalidGeneratorsLength)) && *other == top_verdict => o.count("verify:cap>=T->same verdict as with the largest capacity", 1),
             (other, below) => o.violate(format!("verify-threshold:{}:{}", if below { "below" } else { "at-or-above" }, res_name(other)), format!("verify with capacity {} (threshold {}) returned {}", cap, t, res_name(other)), detail(cap)),
         }
         if let Some(b) = &bad {
@@ -130,10 +138,12 @@ fn run_case<G: AffineRepr>(env: &Env<G>, c: &Case) -> CaseOut {
             for order in 0..2 {
                 o.evals += 1;
                 let items = if order == 0 { vec![(&prog, &vs[..], &proof), (&prog2, &po2.vs[..], p2)] } else { vec![(&prog2, &po2.vs[..], p2), (&prog, &vs[..], &proof)] };
+                let top_b = batch::<G>(env, &items, &env.bp_of(top_cap.max(tmax)), 3).0;
                 match guarded(|| batch::<G>(env, &items, &bp, 3).0) {
                     Ok(r) => match (&r, cap < tmax) {
                         (Err(R1CSError::InvalidGeneratorsLength), true) => o.count("batch:cap<maxT->InvalidGeneratorsLength", 1),
-                        (Ok(()), false) => o.count("batch:cap>=maxT->Ok", 1),
+                        (Ok(()), false) if top_b.is_ok() => o.count("batch:cap>=maxT->Ok", 1),
+                        (other, false) if !matches!(other, Err(R1CSError::InvalidGeneratorsLength)) && *other == top_b => o.count("batch:cap>=maxT->same verdict as with the largest capacity", 1),
                         (other, below) => o.violate(format!("batch-threshold:{}:{}", if below { "below" } else { "at-or-above" }, res_name(other)), format!("batch_verify of gate counts {}+{} and {}+{} with capacity {} (threshold {}) returned {}", c.n1, c.n2, c.other.0, c.other.1, cap, tmax, res_name(other)), detail(cap)),
                     },
                     Err((loc, msg)) => {
